@@ -166,7 +166,7 @@ def run_check(prop, tier, seed, replay, t0):
                         % (bname, binfo["bfs_states"], mcm["states"], mcm["cfg"]))
             opts = dict(opts, per_tlc=1)
         else:
-            res = run.run_scripts(exe_b, scripts, bdir, op_timeout=opts.get("op_timeout", 20), max_slots=opts.get("max_slots", 400))
+            res = run.run_scripts(exe_b, scripts, bdir, op_timeout=opts.get("op_timeout", 20), max_slots=opts.get("max_slots", 400), strace=opts.get("strace", False))
         t2 = time.time()
         # several histories per TLC start; groups run in parallel
         per = opts.get("per_tlc", 8)
